@@ -129,11 +129,44 @@ def check_value(ctx, rng, ty, shape, vals, cases, client=False, budget=6):
                 cases.append(("xdr-src-store %s %d (%s) (%s)" % (held.dtype.char, held.dtype.byteorder == ">",
                                                                  " ".join(map(str, shape)), " ".join(map(str, vals))),
                               "((%s) %s)" % (" ".join(map(str, held.strides)), hexb(held.tobytes())), meta))
+        if shape and all(n > 0 for n in shape) and held is not None and isinstance(held, np.ndarray) and rng.random() < 0.35:
+            check_hyperslab(ctx, rng, ty, shape, vals, label, obj, held, cases)
     if len(seen) > 1:
         (x1, (l1, o1)), (x2, (l2, o2)) = list(seen.items())[:2]
         ctx.oracle_fail("two representations of the same value are served as different bytes",
                         {"ty": ty, "shape": list(shape), "vals": pack(vals), "reps": [l1, l2], "objs": [o1, o2]},
                         x1.hex(), x2.hex())
+
+
+def check_hyperslab(ctx, rng, ty, shape, vals, label, obj, held, cases):
+    """an in-range hyperslab of a variable held in this representation: the handler encodes the strided VIEW
+    `data[slices]` of the source; oracle = reference encoding of the selected values, model = encArr on the
+    memory of that very view"""
+    sl = []
+    for n in shape:
+        a = rng.randint(0, n - 1)
+        b = rng.randint(a, n - 1)
+        sl.append((a, rng.randint(1, 3), b))
+    ce = "v" + "".join("[%d:%d:%d]" % x for x in sl)
+    idx = tuple(slice(a, b + 1, k) for a, k, b in sl)
+    sub = np.array(vals, dtype=object).reshape(shape)[idx]
+    t2 = ("b", ty, tuple(sub.shape), "v", False)
+    ref = X.ref_enc(t2, list(sub.reshape(-1)))
+    case = {"rep": label, "ty": ty, "shape": list(shape), "vals": pack(vals), "obj": obj_record(obj), "ce": ce,
+            "ref": ref.hex()}
+    try:
+        _, status, dds, xdr = R.serve_obj(obj, ce)
+    except Exception as e:
+        ctx.oracle_fail("GET .dods?<hyperslab> raised %s for a value held in this representation" % type(e).__name__,
+                        case, repr(e)[:200], ref.hex())
+        return
+    if xdr != ref:
+        ctx.oracle_fail("hyperslab of a value held in this representation: bytes differ from the reference encoding "
+                        "of the selection", case, xdr.hex() if xdr is not None else dds[:160].decode("latin1"), ref.hex())
+    ctx.tags["rep-hyperslab:" + label.split("/")[1]] += 1
+    ctx.count(("rep-ce", ty, tuple(shape), label, ce, repr(vals)[:120]), True)
+    if xdr is not None and held.dtype.char != "S":
+        cases.append(("xdr-src-enc " + R.arr_sexp(held[idx]), "(ok %s)" % hexb(xdr), {"rep": label, "ce": ce, "obj": case["obj"]}))
 
 
 # ---------------------------------------------------------------------------------------------------
@@ -177,10 +210,36 @@ def seq_of_cells(cols, rows):
     return BaseHandler(ds)
 
 
-def judge_cells(cols, vals_rows, obj_rows):
+def client_rows(app, t):
+    """the rows the pydap client iterates over for sequence `q` served by `app` (C01)"""
+    from pydap.client import open_url
+
+    c = open_url("http://localhost:8001/d", application=app)
+    probs = []
+    got = X.canon(t, list(X.materialise_rows(c["q"].iterdata(), t)), probs)
+    return got, probs
+
+
+def client_fails(app, t, vals_rows):
+    try:
+        got, probs = client_rows(app, t)
+    except Exception as e:
+        return [("the client raised %s on a sequence" % type(e).__name__, repr(e)[:200], pack(vals_rows))]
+    if got != [list(r) for r in vals_rows]:
+        return [("the client reads other rows than the source holds", pack(got), pack(vals_rows))]
+    if probs:
+        return [("the client reports another type for a column", probs[:3], "source types")]
+    return []
+
+
+def judge_cells(cols, vals_rows, obj_rows, client=False):
     """cols: [(name, ty)], vals_rows: model values, obj_rows: the Python objects holding them"""
     t = ("sq", "q", [("b", ty, (), name, False) for name, ty in cols], "iter")
     ref = X.ref_enc(t, vals_rows)
+    if client:
+        f = client_fails(seq_of_cells(cols, obj_rows), t, vals_rows)
+        if f:
+            return f, None
     try:
         r = X.get(seq_of_cells(cols, obj_rows), "/d.dods")
         raw = r.body
@@ -204,7 +263,7 @@ def cell_obj_record(o):
     return obj_record(o)
 
 
-def check_cells(ctx, rng, cases):
+def check_cells(ctx, rng, cases, client=False):
     types = [rng.choice(X.TYPES) for _ in range(rng.randint(1, 3))]
     cols = [("c%d" % i, ty) for i, ty in enumerate(types)]
     nrows = rng.choice([1, 1, 2, 3])
@@ -224,8 +283,8 @@ def check_cells(ctx, rng, cases):
         cell_rows.append(cr)
         labels.append(lr)
         big_rows.append(br)
-    fails, xdr = judge_cells(cols, vals_rows, obj_rows)
-    case = {"cells": {"cols": cols, "vals": pack(vals_rows), "objs": [[cell_obj_record(o) for o in r] for r in obj_rows],
+    fails, xdr = judge_cells(cols, vals_rows, obj_rows, client)
+    case = {"cells": {"client": client, "cols": cols, "vals": pack(vals_rows), "objs": [[cell_obj_record(o) for o in r] for r in obj_rows],
                       "labels": labels}}
     for what, obs, exp in fails:
         ctx.oracle_fail(what, case, obs, exp, size=len(json.dumps(case)))
@@ -276,7 +335,7 @@ def build_recarray(rng, cols, vals_rows):
     return view, layout
 
 
-def judge_recarray(cols, vals_rows, arr):
+def judge_recarray(cols, vals_rows, arr, client=False):
     from pydap.handlers.lib import BaseHandler
     from pydap.model import BaseType, DatasetType, SequenceType
 
@@ -288,6 +347,10 @@ def judge_recarray(cols, vals_rows, arr):
         s[name] = BaseType(name)
     s.data = arr
     ds["q"] = s
+    if client:
+        f = client_fails(BaseHandler(ds), t, vals_rows)
+        if f:
+            return f, None
     try:
         raw = X.get(BaseHandler(ds), "/d.dods").body
     except Exception as e:
@@ -306,14 +369,14 @@ def judge_recarray(cols, vals_rows, arr):
     return fails, xdr
 
 
-def check_recarray(ctx, rng, cases):
+def check_recarray(ctx, rng, cases, client=False):
     types = [rng.choice(X.TYPES) for _ in range(rng.randint(1, 3))]
     cols = [("c%d" % i, ty) for i, ty in enumerate(types)]
     n = rng.choice([0, 1, 2, 3])
     vals_rows = [[X.gen_value(rng, ty) for ty in types] for _ in range(n)]
     arr, layout = build_recarray(rng, cols, vals_rows)
-    fails, xdr = judge_recarray(cols, vals_rows, arr)
-    case = {"recarray": {"cols": cols, "vals": pack(vals_rows), "arr": obj_record(arr), "layout": layout,
+    fails, xdr = judge_recarray(cols, vals_rows, arr, client)
+    case = {"recarray": {"client": client, "cols": cols, "vals": pack(vals_rows), "arr": obj_record(arr), "layout": layout,
                          "names": [c[0] for c in cols]}}
     for what, obs, exp in fails:
         ctx.oracle_fail(what, case, obs, exp, size=len(json.dumps(case)))
@@ -344,9 +407,9 @@ def explore(ctx, label, n_random, client=False, every_type=True):
         d = X.gen_data(rng, t)
         check_value(ctx, rng, t[1], t[2], d if t[2] else [d], cases, client, budget=5)
     for _ in range(n_random):
-        check_cells(ctx, rng, cases)
+        check_cells(ctx, rng, cases, client)
     for _ in range(n_random):
-        check_recarray(ctx, rng, cases)
+        check_recarray(ctx, rng, cases, client)
     check_outside(ctx, cases)
     ctx.correspond("encArr / NpArr.data? / encCellsFlat vs responses.dods on the real memory of the source", cases)
 
@@ -358,12 +421,16 @@ def replay_case(c):
         cols = [tuple(x) for x in cc["cols"]]
         vals = [[bytes.fromhex(v[1:]) if isinstance(v, str) else v for v in row] for row in cc["vals"]]
         objs = [[obj_rebuild(o) for o in row] for row in cc["objs"]]
-        fails, _ = judge_cells(cols, vals, objs)
+        fails, _ = judge_cells(cols, vals, objs, cc.get("client", False))
     elif "recarray" in c:
         cc = c["recarray"]
         cols = [tuple(x) for x in cc["cols"]]
         vals = [[bytes.fromhex(v[1:]) if isinstance(v, str) else v for v in row] for row in cc["vals"]]
-        fails, _ = judge_recarray(cols, vals, obj_rebuild(cc["arr"]))
+        fails, _ = judge_recarray(cols, vals, obj_rebuild(cc["arr"]), cc.get("client", False))
+    elif "obj" in c and "ce" in c:
+        _, status, dds, xdr = R.serve_obj(obj_rebuild(c["obj"]), c["ce"])
+        fails = [] if xdr is not None and xdr.hex() == c["ref"] else \
+            [("hyperslab bytes differ from the reference encoding of the selection", (xdr or dds[:160]).hex(), c["ref"])]
     elif "obj" in c:
         vals = unpack_vals(c["ty"], c["vals"])
         fails, _, _ = judge_obj(c["ty"], tuple(c["shape"]), vals, obj_rebuild(c["obj"]), c.get("client", False))
